@@ -148,7 +148,7 @@ def h_slice_get(vf, node, fn, args):
 def h_checked_sub(vf, node, fn, args):
     """a.checked_sub(b) on unsigned integers: Some(a - b) iff a >= b"""
     a, b = tt(vf, vf.deref(args[0])), tt(vf, vf.deref(args[1]))
-    return T.app('opt', T.cmp('ge', a, b), T.sub(a, b))
+    return T.app('opt', T.icmp('ge', a, b), T.sub(a, b))
 
 
 @reg('ALIAS', 'std::result::Result::map_err')
